@@ -221,6 +221,13 @@ pub fn roundtrip(tier: &str) -> i32 {
             n += 1;
         }
     }
+    // the smallest parameters that fit (trim keeps every point), and generous ones
+    for (r, cap) in [(1usize, 16usize), (5, 16), (12, 32), (12, 33), (28, 64), (3, 500)] {
+        let ppx = setup(cap);
+        let program = arith_program(r, &[0]);
+        println!("{}", rt_case(&format!("arith-r{r}-srs{cap}"), &ppx, b"srs", &program, 0xC16 + n));
+        n += 1;
+    }
     // all selector columns populated (provable raw rows), several sizes
     for extra in if thorough { vec![0usize, 1, 2, 5, 9, 25] } else { vec![0usize, 1, 9] } {
         let program = allsel_program(3 + extra as u64, extra, 1 + extra % 3);
@@ -381,6 +388,16 @@ pub fn hostile(tier: &str) -> i32 {
         }
     };
     let cap_bytes = pp.to_raw_var_bytes().len();
+    // reference work: compiling a circuit that fills the parameters' capacity
+    // (64 - 6 = 58 constraints), measured the same way
+    let full = arith_program(54, &[0, 7]);
+    let full_circ = ScriptedCircuit::new(full.clone());
+    let _ = guarded(|| Compiler::compile_with_circuit(&pp, b"hostile", &full_circ));
+    let (fr, cap_peak, _) = measure(|| guarded(|| Compiler::compile_with_circuit(&pp, b"hostile", &full_circ)));
+    if !matches!(fr, Ok(Ok(_))) {
+        println!("{}", json!({"fatal": format!("capacity-filling circuit does not compile: {}", outcome(&fr))}));
+        return 2;
+    }
     let mut cases: Vec<(String, Vec<u8>)> = Vec::new();
     cases.push(("valid".into(), good.clone()));
     cases.push(("empty".into(), vec![]));
@@ -442,7 +459,7 @@ pub fn hostile(tier: &str) -> i32 {
         }
         let (r, peak, maxreq) = measure(|| guarded(|| Compiler::compile_with_compressed(&pp, b"hostile", bytes)));
         let mut rec = json!({"id": name, "m": "compressed", "res": outcome_dbg(&r), "peak": peak, "maxreq": maxreq,
-                             "len": bytes.len(), "cap_bytes": cap_bytes});
+                             "len": bytes.len(), "cap_bytes": cap_bytes, "cap_peak": cap_peak});
         if let Ok(Ok((prover, verifier))) = &r {
             let (o, pr, _) = prove_bytes(prover, &program, 5, PlonkVersion::V3);
             rec["smoke_prove"] = json!(o);
